@@ -55,4 +55,20 @@ CHECKS = {
         assumptions=['the reference acceptance decision reads the statement literally: key id, msg_key over header+declared body, 0<=L<=data, server parity; '
                      'an attacker-with-key packet that satisfies all four is accepted (the statement allows it)'],
     ),
+    'C20': dict(
+        module='harness-deeplinks', pkg='./c20', test='TestC20', level='exploration',
+        quick=dict(shards=4, checks=40000),
+        thorough=dict(shards=16, checks=1200000, budget_s=3000, fuzz=[dict(target='FuzzResolve', time='120s')]),
+        level_text=('Grammar-generated links over the statement\'s structured domain with an oracle for the asserted sub-domain, arbitrary '
+                    'strings for totality, the full cross product scheme x host x port x path shape x tail enumerated, and (thorough) '
+                    'coverage-guided native fuzzing for totality/determinism.'),
+        technique='property-based testing with a grammar generator (rapid) + enumerated cross product + native fuzzing (thorough)',
+        rule=('links = scheme {"",http,https (any case),tg,ftp,ws,mailto,//} x host {5 reserved, look-alikes, upper-case, empty} x port x path shape '
+              '{user,join,bare,slash,two,three,emptyjoin,trailing,doubleslash,escaped} over ASCII/Unicode names x tail; 10% arbitrary strings. '
+              'Asserted: reserved host + http(s) or scheme-less without port -> /<name> = user lower-cased, /joinchat/<token> = invite, other '
+              'shapes/hosts/schemes = error; accepted either way (totality only): upper-case hosts, percent-escapes, //host, scheme-less with port. '
+              'Non-trivial: the string parses as a URL with non-empty host or path; distinct by hash of the link.'),
+        must_hit=['asserted:user', 'asserted:join', 'asserted:err', 'totality-only', 'soup', 'path=bare', 'scheme=""', 'host=lookalike'],
+        assumptions=['net/url parsing of the standard library defines what host/path a link has', 'strings.ToLower defines lower-casing'],
+    ),
 }
